@@ -744,4 +744,54 @@ def runResNoOwnerCheck (s : State) : List Op → List Res
   | [] => []
   | op :: ops => (stepNoOwnerCheck s op).2 :: runResNoOwnerCheck (stepNoOwnerCheck s op).1 ops
 
+/-! ## the undo of an update with its two index steps SWAPPED (NOT the code; regression witness only)
+
+  `apply_undo_entry` reverts one recorded `IndexChange { column, old_value, new_value }` of an
+  `UpdatedRow` entry by `index_remove(new_value)` THEN `index_add(old_value)` (`undoChange`).
+  `tx_update` records a change for every indexed column in its SET list — also when the row
+  already held the assigned value, so `old_value == new_value` is an ordinary entry.  The variant
+  below does `index_add(old_value)` first and `index_remove(new_value)` second ("never leave the row
+  absent from the index while the undo is in flight"): with `old_value == new_value` the add is a
+  no-op and the remove deletes the row's only entry.  Kept so that
+  `undo_add_before_remove_loses_entry_witness` can show that `undo_update_keeps_index_exact`
+  depends on the order.  (Non-transactional statements roll back only a transaction whose statement
+  failed before recording anything, so only `Op.rollback` differs.) -/
+
+def undoChangeAddBeforeRemove (on : List Nat) (i : Nat) (es : List Entry) (p : Nat × Int × Int) : List Entry :=
+  if p.1 ∈ on then idxRemove (p.1, p.2.2, i) (idxAdd (p.1, p.2.1, i) es) else es
+
+def applyUndoTAddBeforeRemove (T : Table) (u : Undo) : Table × Nat :=
+  match u with
+  | .updated _ i old chg =>
+    let rr := restoreRow T i old
+    ({ T with rows := rr.getD T.rows
+              hashE := chg.foldl (undoChangeAddBeforeRemove T.hashOn i) T.hashE
+              btreeE := chg.foldl (undoChangeAddBeforeRemove T.btreeOn i) T.btreeE },
+     if rr.isSome then 0 else 1)
+  | u => applyUndoT T u
+
+def applyUndoAddBeforeRemove (acc : State × Nat) (u : Undo) : State × Nat :=
+  match acc.1.tables u.table with
+  | none => (acc.1, acc.2 + 1)
+  | some T => (setTable acc.1 u.table (applyUndoTAddBeforeRemove T u).1, acc.2 + (applyUndoTAddBeforeRemove T u).2)
+
+def rollbackAddBeforeRemove (s : State) (tx : Nat) : State × Res :=
+  match gate s tx with
+  | some e => (s, .err e)
+  | none =>
+    let log := match s.txs tx with | some x => x.undo | none => []
+    let r := log.reverse.foldl applyUndoAddBeforeRemove (s, 0)
+    (setTx (release r.1 tx) tx none, if r.2 = 0 then .ok else .err .rollbackFailed)
+
+def stepAddBeforeRemove (s : State) (op : Op) : State × Res :=
+  match op with
+  | .rollback tx => rollbackAddBeforeRemove s tx
+  | op => step s op
+
+def runAddBeforeRemove (s : State) (ops : List Op) : State := ops.foldl (fun s op => (stepAddBeforeRemove s op).1) s
+
+def runResAddBeforeRemove (s : State) : List Op → List Res
+  | [] => []
+  | op :: ops => (stepAddBeforeRemove s op).2 :: runResAddBeforeRemove (stepAddBeforeRemove s op).1 ops
+
 end Neumann.RelTx
